@@ -170,6 +170,9 @@ type FS struct {
 
 var cur *FS
 
+// Trace echoes renames and removals into the verbose trace (KEVOSIM_ECHO=1).
+var Trace = realos.Getenv("KEVOSIM_ECHO") != ""
+
 func NewFS() *FS {
 	f := &FS{}
 	f.dirs.set("/", true)
@@ -483,6 +486,9 @@ func Rename(oldp, newp string) error {
 }
 
 func (f *FS) applyRename(oldp, newp string) {
+	if Trace {
+		simrt.Printf("fs rename %s -> %s", oldp, newp)
+	}
 	if ino, ok := f.files.get(oldp); ok {
 		if old, ok2 := f.files.get(newp); ok2 {
 			old.nlink--
@@ -512,6 +518,9 @@ func (f *FS) applyRename(oldp, newp string) {
 func Remove(p string) error {
 	f := cur
 	p = clean(p)
+	if Trace {
+		simrt.Printf("fs remove %s", p)
+	}
 	_, isFile := f.files.get(p)
 	if !isFile && !f.dirs.has(p) {
 		simrt.Yield(simrt.CIO)
